@@ -6,7 +6,7 @@ from checks.outparse import parse_raws, parse_views
 
 ID = "C15"
 LEAN_MODULES = ["Econf.Props.C15"]
-THEOREMS = ["Econf.C15_options", "Econf.C15_unknown", "Econf.C15_unknown_string", "Econf.applyOption_item", "Econf.C15_join_step", "Econf.C15_no_join", "Econf.C15_python_continues", "Econf.C15_python_append"]
+THEOREMS = ["Econf.C15_options", "Econf.C15_unknown", "Econf.C15_unknown_string", "Econf.applyOption_item", "Econf.C15_join_step", "Econf.C15_join_entry", "Econf.C15_join_value", "Econf.C15_join_since_empty", "Econf.C15_join_concat", "Econf.C15_join_spec", "Econf.C15_no_join", "Econf.C15_python_continues", "Econf.C15_python_append"]
 RULE = ("join documents (repeated keys, empty definitions, multi-line definitions), python-style documents (indented continuation lines "
         "containing delimiters and comment characters) and option strings built from the documented items in every order, repeated, "
         "and with unknown or misspelt names; distinct by (content or option string, sets)")
@@ -30,14 +30,23 @@ def join_make(rng, sid, hist):
     g = gen_doc.Gen(rng, delim, comment, hist=hist)
     items = []
     keys = [g.key() for _ in range(rng.randint(1, 3))]
+    secnames = []
     for _ in range(rng.randint(1, 14)):
         r = rng.random()
         if r < 0.1:
             items.append(g.comment_item())
         elif r < 0.18:
             items.append(g.blank_item())
-        elif r < 0.26:
-            items.append(g.section_item())
+        elif r < 0.34:
+            # few section names, so that sections are re-opened behind entries of another section (the join is per
+            # (section, key) over the whole file, not per block)
+            it = g.section_item()
+            if secnames and rng.random() < 0.75:
+                nm = rng.choice(secnames)
+                it = dict(it, lines=[b"[" + nm + b"]"], name=nm, tc=None)
+            elif it["tc"] is None and len(secnames) < 2:
+                secnames.append(it["name"])
+            items.append(it)
         else:
             it = g.entry_item(rng.choice(keys))
             # no value whose text starts with a quote (it would be one item for the extended getter)
@@ -56,21 +65,24 @@ def join_make(rng, sid, hist):
 
 
 def join_expected(items):
-    """(group,key) -> expected value list (lines since the last empty definition)"""
+    """(group,key) -> expected value list: the definitions since the last empty one, joined by line breaks (leading blanks of an
+    appended definition removed, line breaks included), as the extended getter reports that text (split into trimmed lines; a text
+    that starts with a quote after trimming is one item - the rule C17 states)"""
     sections, entries = gen_doc.expected(items)
-    out = {}
+    text = {}
     order = []
     for e in entries:
         gk = (e["group"], e["key"])
-        if gk not in out:
-            out[gk] = []
+        if gk not in text:
+            text[gk] = None
             order.append(gk)
         if e["value"] is None or e["value"] == b"":
-            out[gk] = []
+            text[gk] = None
+        elif text[gk] is None:
+            text[gk] = e["value"]
         else:
-            # leading blanks of an appended definition are removed, line breaks included
-            ls = [x.strip(BL + b"\n") for x in e["value"].lstrip(BL + b"\n").split(b"\n")]
-            out[gk] = out[gk] + ls
+            text[gk] = text[gk] + b"\n" + e["value"].lstrip(BL + b"\n")
+    out = {gk: ([] if t is None else gen_doc.ext_values(t)) for gk, t in text.items()}
     return sections, order, out
 
 
